@@ -452,7 +452,7 @@ def solve1(pc, goal, rlimit=DEFAULT_RLIMIT, use_cvc5=False, max_refine=40):
     for attempt, seed in enumerate(SEEDS):
         s = z3.Solver()
         s.set('rlimit', rlimit)
-        s.set('timeout', int(os.environ.get('PYVC_TIMEOUT_MS', '25000')))
+        s.set('timeout', int(os.environ.get('PYVC_TIMEOUT_MS', '60000')))
         s.set('random_seed', seed)
         s.add(*fs)
         s.add(*ax)
